@@ -1771,11 +1771,29 @@ func (c *Ctx) ruleCheckedIsEmitted(rule string) {
 		}
 		*out = append(*out, describeVal(v, 0))
 	}
-	isMax := func(v ssa.Value) bool {
+	var isMax func(v ssa.Value) bool
+	isMax = func(v ssa.Value) bool {
 		v = stripConv(v)
 		if k, ok := v.(*ssa.Const); ok && k.Value != nil {
 			kv, ok := constInt(k.Value)
 			return ok && maxes[kv]
+		}
+		// a helper of the package that returns one of the two maxima
+		if call, ok := v.(*ssa.Call); ok {
+			cal := call.Call.StaticCallee()
+			if cal == nil || cal.Blocks == nil || !c.P.InModule(cal) || cal.Signature.Results().Len() != 1 {
+				return false
+			}
+			any := false
+			for _, b := range cal.Blocks {
+				if ret, ok := b.Instrs[len(b.Instrs)-1].(*ssa.Return); ok {
+					if !isMax(ret.Results[0]) {
+						return false
+					}
+					any = true
+				}
+			}
+			return any
 		}
 		if ph, ok := v.(*ssa.Phi); ok {
 			any := false
